@@ -1,5 +1,37 @@
-use serde_json::Value;
+use crate::ops::{b, cps, s};
+use serde_json::{json, Value};
+use text_utils::whitespace;
 
-pub fn dispatch(op: &str, _req: &Value) -> Result<Value, String> {
-    Err(format!("unknown op {op}"))
+fn ops_from(req: &Value, k: &str) -> Result<Vec<whitespace::Operation>, String> {
+    let arr = req.get(k).and_then(|v| v.as_array()).ok_or(format!("missing {k}"))?;
+    arr.iter()
+        .map(|v| match v.as_str() {
+            Some("Keep") => Ok(whitespace::Operation::Keep),
+            Some("Insert") => Ok(whitespace::Operation::Insert),
+            Some("Delete") => Ok(whitespace::Operation::Delete),
+            _ => Err("bad op".to_string()),
+        })
+        .collect()
+}
+
+fn op_name(o: &whitespace::Operation) -> &'static str {
+    match o {
+        whitespace::Operation::Keep => "Keep",
+        whitespace::Operation::Insert => "Insert",
+        whitespace::Operation::Delete => "Delete",
+    }
+}
+
+pub fn dispatch(op: &str, req: &Value) -> Result<Value, String> {
+    match op {
+        "ws_operations" => Ok(match whitespace::operations(&s(req, "a")?, &s(req, "b")?, b(req, "g")?) {
+            Ok(v) => json!({"Ok": v.iter().map(op_name).collect::<Vec<_>>()}),
+            Err(_) => json!({"Err": true}),
+        }),
+        "ws_repair" => Ok(match whitespace::repair(&s(req, "s")?, &ops_from(req, "ops")?, b(req, "g")?) {
+            Ok(v) => json!({"Ok": cps(&v)}),
+            Err(_) => json!({"Err": true}),
+        }),
+        _ => crate::ops3::dispatch(op, req),
+    }
 }
